@@ -168,7 +168,14 @@ func (LightClientModule) LatestHeight(ctx sdk.Context, _ string) exported.Height
 
 // TimestampAtHeight returns the current block time retrieved from the application context. The localhost client does not store consensus states and thus
 // cannot provide a timestamp for the provided height.
-func (LightClientModule) TimestampAtHeight(ctx sdk.Context, _ string, _ exported.Height) (uint64, error) {
+func (LightClientModule) TimestampAtHeight(ctx sdk.Context, _ string, height exported.Height) (uint64, error) {
+	// The localhost client reads the chain's own state, which only exists up to the current block.
+	// A height in the future has no timestamp yet: answering with the current block time would let a
+	// packet on a loopback channel be timed out at a relayer-chosen height the chain has not reached.
+	if selfHeight := clienttypes.GetSelfHeight(ctx); height != nil && height.GT(selfHeight) {
+		return 0, errorsmod.Wrapf(ibcerrors.ErrInvalidHeight, "height %s is greater than the current height %s", height, selfHeight)
+	}
+
 	return uint64(ctx.BlockTime().UnixNano()), nil
 }
 
